@@ -58,6 +58,8 @@ From Coq.Strings Require Import Byte.
 From GM Require Import Base.Lts Codec.Packet Session.Store Broker.Conn Broker.ConnSpec
   Broker.ConnProofsB0 Broker.ConnProofsB2 Broker.ConnProofsB5 Broker.ConnProofsB6 Broker.ConnProofsB7
   Broker.ConnSpec3 Broker.ConnProofsA_resp2 Broker.ConnProofsA_tok.
+(* further theorems of this property about the connection monitor: *)
+From GM Require Props.C07_progress.
 Import ListNotations.
 Open Scope N_scope.
 
